@@ -37,7 +37,7 @@ ASSUMPTIONS = ["frozen positions are 0-based (the convention full_shuffle implem
                "non-termination (N<5, single charge type) is counted as BUDGET",
                "bookkeeping is observed through the API: length, counts, per-residue charge via get_linear_NCPR(1), SCD, carried delta-max via get_deltaMax()",
                "swapRes indices are valid 0-based positions"]
-PROBES = ["frozen_nonempty", "frozen_all", "frozen_out_of_range", "frozen_as_list", "cache_warm_before_move", "child_inherits_dmax",
+PROBES = ["frozen_as_tuple", "frozen_as_frozenset", "frozen_as_range", "frozen_nonempty", "frozen_all", "frozen_out_of_range", "frozen_as_list", "cache_warm_before_move", "child_inherits_dmax",
           "same_seed_twice", "clock_went_back", "returns_self", "block_swap_attempt_99", "block_swap_N_lt_4", "cluster_draw_cap",
           "cluster_named_refusal", "chain_depth_ge_5", "panel_on_child", "permutant_api", "shuffle_api", "swapres_same_index",
           "three_types_sample", "moved_something"]
@@ -84,8 +84,14 @@ def gen_plan(streams, tier):
 
 def gen_frozen(rnd, allow_list):
     spec = rnd.choice(("none", "none", "random", "random", "pos", "neg", "neut", "all", "oor", "half", "charged"))
-    return {"fz": spec, "fp": rnd.choice((0.1, 0.3, 0.6)), "fs": rnd.randrange(1 << 30),
-            "ft": "list" if (allow_list and rnd.random() < 0.3) else "set"}
+    r = rnd.random()
+    if allow_list and r < 0.45:
+        ft = rnd.choice(("list", "list", "tuple", "frozenset", "range"))
+    elif r < 0.6:
+        ft = "frozenset"
+    else:
+        ft = "set"
+    return {"fz": spec, "fp": rnd.choice((0.1, 0.3, 0.6)), "fs": rnd.randrange(1 << 30), "ft": ft}
 
 
 def resolve_frozen(op, seq):
@@ -118,6 +124,22 @@ def resolve_frozen(op, seq):
     return f
 
 
+def container(frozen, ft):
+    """the frozen positions in the container type the plan asks for (all plain Python containers)"""
+    if ft == "list":
+        return list(frozen)
+    if ft == "tuple":
+        return tuple(frozen)
+    if ft == "frozenset":
+        return frozenset(frozen)
+    if ft == "range":
+        f = sorted(set(frozen))
+        if f and f == list(range(f[0], f[-1] + 1)):
+            return range(f[0], f[-1] + 1)
+        return list(frozen)
+    return set(frozen)
+
+
 def corpus():
     out = []
 
@@ -131,6 +153,9 @@ def corpus():
        [{"k": "move", "o": i, "m": "swapRandChargeRes", "fz": "none", "ft": "set", "panel": True} for i in (0, 1, 2, 3, 0, 1)], rng_mode="mt")
     mk("frozen_full_shuffle", ["MKEGSTYKEDDRRGSP"], [{"k": "move", "o": -1, "m": "full_shuffle", "fz": z, "fp": 0.4, "fs": 7, "ft": t, "panel": False}
                                                       for z in ("random", "pos", "all", "oor", "half") for t in ("set", "list")])
+    mk("frozen_container_types", ["MKEGSTYKEDDRRGSP"], [{"k": kk, "o": 0, "m": "full_shuffle", "fz": "half", "ft": t, "panel": False}
+                                                       for t in ("set", "list", "tuple", "frozenset", "range") for kk in ("move", "shuffle_api")] +
+       [{"k": "move", "o": 0, "m": "swapRandChargeRes", "fz": "charged", "ft": "frozenset", "panel": False}])
     mk("frozen_charge_swap", ["MKEGSTYKEDDRRGSP"], [{"k": "move", "o": -1, "m": "swapRandChargeRes", "fz": z, "fp": 0.4, "fs": 9, "ft": "set", "panel": False}
                                                      for z in ("random", "pos", "neg", "neut", "all", "charged", "half")])
     mk("warm_cache_chain", ["GKEGKEGKEGKEGSTY"], [{"k": "warm", "o": 0, "how": "kappa"}] +
@@ -333,8 +358,8 @@ def execute(plan, ctx):
                 m = op["m"]
                 key_site = m
                 frozen = resolve_frozen(op, pseq)
-                fz = list(frozen) if op.get("ft") == "list" else set(frozen)
-                where = "%s(frozen=%s)" % (m, op.get("fz"))
+                fz = container(frozen, op.get("ft"))
+                where = "%s(frozen=%s as %s)" % (m, op.get("fz"), type(fz).__name__)
                 cap[0] = 60 * N + 600 if m in ("full_shuffle", "swapRandChargeRes") else 3000
                 child = getattr(parent, m)(fz)
             elif k == "swapres":
@@ -347,8 +372,8 @@ def execute(plan, ctx):
                 child = parent.swapRes(a, b)
             elif k == "shuffle_api":
                 frozen = resolve_frozen(op, pseq)
-                fz = list(frozen) if op.get("ft") == "list" else set(frozen)
-                where = "get_shuffled_sequence(frozen=%s)" % op.get("fz")
+                fz = container(frozen, op.get("ft"))
+                where = "get_shuffled_sequence(frozen=%s as %s)" % (op.get("fz"), type(fz).__name__)
                 key_site = "get_shuffled_sequence"
                 cap[0] = 60 * N + 600
                 ctx.probe("shuffle_api")
@@ -395,6 +420,8 @@ def execute(plan, ctx):
                 ctx.probe("frozen_out_of_range")
             if op.get("ft") == "list":
                 ctx.probe("frozen_as_list")
+            if op.get("ft") in ("tuple", "frozenset", "range"):
+                ctx.probe("frozen_as_" + op.get("ft"))
         if warm:
             ctx.probe("cache_warm_before_move")
             ctx.nontrivial = True
